@@ -23,6 +23,11 @@ func customCorpus(e *core.Env, n int, prefix string, mod func(i int, o *pgen.Cus
 			mod(i, &o)
 		}
 		cr := rand.New(rand.NewSource(r.Int63()))
+		if i%4 == 3 {
+			// type graphs with cycles: generated helpers that call each other while their signatures still change
+			cases = append(cases, pgen.GraphCase(cr, fmt.Sprintf("%sg%05d", prefix, i), pgen.GraphOpts{Format: o.Format, Seed: o.Seed, NValues: o.NValues, WrapMode: o.WrapMode, MaxFaults: o.MaxFaults, Fallible: o.Fallible}))
+			continue
+		}
 		cases = append(cases, pgen.CustomCase(cr, fmt.Sprintf("%s%05d", prefix, i), o))
 	}
 	return cases
@@ -31,7 +36,7 @@ func customCorpus(e *core.Env, n int, prefix string, mod func(i int, o *pgen.Cus
 // C06: custom functions/declared methods are used wherever their types occur.
 func C06(e *core.Env) int {
 	rep := core.NewReport(e, "exploration")
-	rep.Rule = "converters mixing automatic rules with custom functions: extend (local, other package, regex-selected, converter interface as first argument, with error result, with contexts, on underlying types via useUnderlyingTypeMethods), map|FUNC with and without source and context, declared methods with their own field settings; each (S,T) hook pair occurs at 1-3 of the positions field / slice element / map value / pointer / nested named struct / slice of nested / map of slices of pointers, optionally below a recursive pointer and a list method; 0-2 context parameters in random argument positions; every custom function stamps its input and folds the context it received into the result, so the expected value (reference interpreter with an override table calling the same functions) differs from the automatic conversion and from a call with wrong arguments; negative programs (context nobody supplies, explicit method in the chain without it) must be rejected; non-trivial = executed case with >=1 custom function whose values were judged; distinct = structural fingerprint"
+	rep.Rule = "converters mixing automatic rules with custom functions: extend (local, other package, regex-selected, converter interface as first argument, with error result, with contexts, on underlying types via useUnderlyingTypeMethods), map|FUNC with and without source and context, declared methods with their own field settings; each (S,T) hook pair occurs at 1-3 of the positions field / slice element / map value / pointer / nested named struct / slice of nested / map of slices of pointers, optionally below a recursive pointer and a list method; every fourth case is a TYPE GRAPH (2-5 named structs referring to each other through pointers, slices, maps and maps of slices, cycles included, with a fallible and a context-taking extend function on leaf types and field order shuffled) so that generated helpers call each other while their signatures still change; 0-2 context parameters in random argument positions; every custom function stamps its input and folds the context it received into the result, so the expected value (reference interpreter with an override table calling the same functions) differs from the automatic conversion and from a call with wrong arguments; negative programs (context nobody supplies, explicit method in the chain without it) must be rejected; non-trivial = executed case with >=1 custom function whose values were judged; distinct = structural fingerprint"
 	rep.Assumptions = []string{"custom functions of the corpus are deterministic and total (apart from the fault plan, empty here)", "override order of two extend functions with identical signature and context is not judged"}
 	rep.Floor = tierN(e, 30, 300)
 	n := tierN(e, 240, 3500)
